@@ -838,7 +838,9 @@ class Interp:
             return ExtRef(full)
         if name in SAFE_BUILTINS or name in NATIVE_TYPES or name in ("isinstance", "any", "all", "getattr", "hasattr", "next", "iter", "issubclass", "callable", "print", "super", "id", "type", "map", "filter", "compile", "vars"):
             return ExtRef(f"builtins.{name}")
-        if name in ("NotImplemented", "Ellipsis"):
+        if name == "Ellipsis":
+            return ...  # the one real object: `value is Ellipsis` compares identities
+        if name == "NotImplemented":
             return Sym(name)
         if name.endswith(("Error", "Exception")) or name in ("StopIteration",):
             return ExtRef(f"builtins.{name}")
